@@ -7,7 +7,7 @@ import types
 import enc
 import encdata as E
 E.enc = enc
-from enc import call, tres
+from enc import call, tres, topt, tz, gz, glist
 from props import corpus, disview, mutators, progen
 
 CO_NESTED, CO_NOFREE = 0x10, 0x40
@@ -77,6 +77,77 @@ def run_traced(code):
     return out.getvalue(), exc, events
 
 
+def opcode_traces(code):
+    """first invocation of every code object of the program: the byte offsets CPython's eval loop visits
+    (sys.settrace with f_trace_opcodes), capped"""
+    frames = {}
+    done = {}
+
+    def tracer(frame, event, arg):
+        if frame.f_code.co_filename != "<run>":
+            return None
+        frame.f_trace_opcodes = True
+        if event == "call":
+            if frame.f_code not in done and frame.f_code not in [f.f_code for f in frames]:
+                frames[frame] = []
+        elif event == "opcode":
+            if frame in frames and len(frames[frame]) < 400:
+                frames[frame].append(frame.f_lasti)
+        elif event == "return":
+            if frame in frames:
+                done[frame.f_code] = (frames.pop(frame), arg is not None or True)
+        return tracer
+    out = io.StringIO()
+    old = sys.gettrace()
+    with contextlib.redirect_stdout(out):
+        sys.settrace(tracer)
+        try:
+            exec(code, {"__name__": "run"})
+        except BaseException:  # noqa
+            pass
+        finally:
+            sys.settrace(old)
+    return {k: v[0] for k, v in done.items()}
+
+
+def exec_case(ctx, k, offs, what):
+    """Spec/Exec.v's byte-offset machine, driven by the branch decisions CPython actually took, must visit
+    the same instructions (opcode and line of each) as the real eval loop did"""
+    from props import disview
+    ins = disview.dis_instructions(k)
+    index = {first: i for i, (first, _, _) in enumerate(ins)}
+    if not offs or offs[0] != 0 or any(o not in index for o in offs):
+        ctx.count("exec-trace:off-instruction-start")
+        return
+    decisions = []
+    for a, b in zip(offs, offs[1:]):
+        i = index[a]
+        nxt = ins[i + 1][0] if i + 1 < len(ins) else None
+        kind, val = ins[i][2]
+        if b == nxt:
+            decisions.append("CNext")
+        elif kind == "jump" and b == val[0]:
+            decisions.append("CTake")
+        else:
+            ctx.count("exec-trace:non-local-control")   # exception edges, END_FINALLY returns, generators
+            return
+    decisions.append("CHalt")
+    lines = disview.line_table_lines(k)
+    expected = []
+    for o in offs:
+        line = lines.get(o) if lines is not None else disview.real_line_of(k, o)
+        expected += [ins[index[o]][1]] + topt(line, tz)
+    expr = ("(let '(t, s, o) := run_offsets (fun (op : Z) (v : dval pyconst) (line : option Z) (s : list ctl) => match s with d :: r => (r, d) | [] => ([], CHalt) end) "
+            "(Z.to_nat %d) (dis_fold cfg %s %s %s %s %s (dis_unpack cfg %s 0 0) None) (dis_line cfg (raw_entries %s) %s) 0 %s in "
+            "ser_list (fun e => e_op e :: ser_opt ser_Z (e_line e)) t ++ [zlen s; match o with OHalt => 0 | OFellOff => 1 | OBadTarget => 2 | OStuck => 3 | OFuel => 4 end])"
+            % (len(offs) + 2, E.gstrs(k.co_names), E.gstrs(k.co_varnames), E.gstrs(k.co_freevars), E.gstrs(k.co_cellvars),
+               glist([E.g_pyconst(x) for x in k.co_consts], "pyconst"), E.gzlist(k.co_code), E.gzlist(E.table_of(k)), gz(k.co_firstlineno),
+               glist(decisions, "ctl")))
+    ctx.case(expr, [len(offs)] + expected + [0, 0], "Spec/Exec machine against the eval loop's opcode trace of %s" % what, "spec-exec")
+    ctx.count("exec-trace:compared")
+    ctx.count("exec-trace-steps", len(offs))
+
+
 def work(ctx):
     from code_data import CodeData
     rng = ctx.rng
@@ -144,6 +215,21 @@ def work(ctx):
         finally:
             signal.setitimer(signal.ITIMER_REAL, 0)
         ctx.count("executed")
+        # validate the execution Spec (Spec/Exec.v) against CPython's own eval loop on this program
+        if i < (25 if ctx.quick else 400):
+            signal.setitimer(signal.ITIMER_REAL, 5)
+            try:
+                traces = opcode_traces(top)
+            except E.enc.Timeout:
+                traces = {}
+            finally:
+                signal.setitimer(signal.ITIMER_REAL, 0)
+            for kc, offs in traces.items():
+                if len(kc.co_code) <= 600 and len(offs) < 400:
+                    try:
+                        exec_case(ctx, kc, offs, "run%d:%s" % (i, kc.co_name))
+                    except E.Unsupported:
+                        pass
         ctx.count("executed-exception:%s" % a[1])
         if a != b:
             which = "stdout" if a[0] != b[0] else "exception" if a[1] != b[1] else "trace"
